@@ -129,3 +129,10 @@ func PM(id string) string { return `verif/rt/tfx.PM("` + id + `")` }
 
 // USFU is the framework's UseStateForUnknown plan modifier expression.
 const USFU = "github.com/hashicorp/terraform-plugin-framework/tfsdk.UseStateForUnknown()"
+
+// AltType returns the schema_types entry that maps a string / int64 / bool field to
+// the harness's alternative Terraform types.
+func AltType(kind string) ir.SchemaType {
+	name := map[string]string{"string": "AltString", "int64": "AltInt64", "bool": "AltBool"}[kind]
+	return ir.SchemaType{Type: "verif/rt/tfx." + name + "Type", ValueType: "verif/rt/tfx." + name, CastToType: kind, CastFromType: kind}
+}
